@@ -1,4 +1,4 @@
-// Code generated from zz_verif_c01_z.go by gen_c.py (see notes/C01.md); DO NOT EDIT.
+// Code generated from zz_verif_c01_z.go, zz_verif_c01_z2.go by gen_c.py (see notes/C01.md, notes/C01_more.md); DO NOT EDIT.
 
 package gonum
 
@@ -704,6 +704,30 @@ func VerifC01_Chpr2() { verifC01zhrC("Chpr2", 2, true) }
 
 // ---- triangular matrix-vector products and solves: dense, band, packed ----
 
+// verifC01z2solveDiagC prepares the diagonal of a non-unit triangular solve of order n.
+// n <= zsym (param, default 1): symbolic diagonal entries assumed non-zero (documented: no test for
+// singularity). Larger n: the diagonal entries are fixed, pairwise different, non-real values
+// 1+1i, 2-2i, 4+4i, ... (|d|^2 a power of two: Ztrsm multiplies by the concretely evaluated reciprocal
+// 1/d, which must be exact for an exact-real oracle) while every other cell stays symbolic: a complex division by a
+// symbolic value is (ac+bd)/(c^2+d^2), and op(A)*x_out == x_in with nested quotients of that kind
+// costs z3 minutes per query from n == 2 on (Ztrsm m,n <= 2: 84 min of solver time); division by a
+// constant keeps the obligations polynomial.
+func verifC01z2solveDiagC(n int, a []complex64, idx func(i, j int) int) {
+	for i := 0; i < n; i++ {
+		p := idx(i, i)
+		if n <= verifParam("zsym", 1) {
+			verifAssume(verifOr(real(a[p]) != 0, imag(a[p]) != 0))
+			continue
+		}
+		re := float32(int(1) << uint(i))
+		im := re
+		if i%2 == 1 {
+			im = -im
+		}
+		a[p] = complex(re, im)
+	}
+}
+
 func verifC01ztrC(name string, scheme int, solve bool) {
 	ul := verifC01uplo("uplo")
 	tA := verifC01trans("trans")
@@ -714,10 +738,7 @@ func verifC01ztrC(name string, scheme int, solve bool) {
 	slack := verifChoose("slack", 0, 1)
 	x := verifComplex64s("x", verifC01vlen(n, incX, slack))
 	if solve && dg == blas.NonUnit {
-		for i := 0; i < n; i++ {
-			d := st.a[st.idx(i, i)]
-			verifAssume(verifOr(real(d) != 0, imag(d) != 0))
-		}
+		verifC01z2solveDiagC(n, st.a, st.idx)
 	}
 	a0, x0 := verifC01zcloneC(st.a), verifC01zcloneC(x)
 	im := Implementation{}
@@ -986,9 +1007,7 @@ func verifC01ztrmC(name string, solve bool) {
 	b := verifComplex64s("b", verifC01mlen(m, n, ldb, padB))
 	alpha := verifC01zalphaC()
 	if solve && dg == blas.NonUnit && m > 0 && n > 0 {
-		for i := 0; i < ka; i++ {
-			verifAssume(verifOr(real(a[i*lda+i]) != 0, imag(a[i*lda+i]) != 0))
-		}
+		verifC01z2solveDiagC(ka, a, verifC01zdenseIdxC(lda))
 	}
 	a0, b0 := verifC01zcloneC(a), verifC01zcloneC(b)
 	if solve {
@@ -1028,3 +1047,144 @@ func verifC01ztrmC(name string, solve bool) {
 
 func VerifC01_Ctrmm() { verifC01ztrmC("Ctrmm", false) }
 func VerifC01_Ctrsm() { verifC01ztrmC("Ctrsm", true) }
+
+// ---- Level 1: Scasum, Scnrm2, Icamax, Zcopy, Zswap ----
+
+// |Re z| + |Im z| (the BLAS "cabs1")
+func verifC01z2abs1C(z complex64) float32 {
+	return verifC01z2absFC(real(z)) + verifC01z2absFC(imag(z))
+}
+
+func verifC01z2absFC(x float32) float32 {
+	return float32(verifIteF(x < 0, float64(-x), float64(x)))
+}
+
+// VerifC01_Scasum: result = sum |Re x[i]| + |Im x[i]| over addressed elements; x unchanged.
+func VerifC01_Scasum() {
+	n := verifChoose("n", 0, verifParam("l1n", 4))
+	incX := verifC01posinc("incX")
+	slack := verifChoose("slack", 0, 1)
+	x := verifComplex64s("x", verifC01vlen(n, incX, slack))
+	x0 := verifC01zcloneC(x)
+	got := Implementation{}.Scasum(n, x, incX)
+	verifC01zsameC(x, x0, "Scasum: x unchanged")
+	var want float32
+	for i := 0; i < n; i++ {
+		want += verifC01z2abs1C(x0[i*incX])
+	}
+	verifC01eqF32(got, want, "Scasum: sum of |Re|+|Im| over addressed elements")
+	verifReach("end")
+}
+
+// VerifC01_Icamax: first index of the maximum |Re x[i]|+|Im x[i]| over addressed elements; -1 for n == 0.
+func VerifC01_Icamax() {
+	n := verifChoose("n", 0, verifParam("l1n", 4)-1)
+	incX := verifC01posinc("incX")
+	slack := verifChoose("slack", 0, 1)
+	x := verifComplex64s("x", verifC01vlen(n, incX, slack))
+	x0 := verifC01zcloneC(x)
+	got := Implementation{}.Icamax(n, x, incX)
+	verifC01zsameC(x, x0, "Icamax: x unchanged")
+	if n == 0 {
+		verifAssert(got == -1, "Icamax: -1 for n == 0")
+		verifReach("end")
+		return
+	}
+	verifAssert(verifAnd(got >= 0, got < n), "Icamax: index in range")
+	for i := 0; i < n; i++ {
+		if got == i { // fork on the result; at most n feasible values
+			g := verifC01z2abs1C(x0[i*incX])
+			for j := 0; j < n; j++ {
+				a := verifC01z2abs1C(x0[j*incX])
+				verifAssert(a <= g, "Icamax: |Re|+|Im| of x[idx] is the maximum")
+				if j < i {
+					verifAssert(a < g, "Icamax: earliest index among ties")
+				}
+			}
+		}
+	}
+	verifReach("end")
+}
+
+// VerifC01_Scnrm2: r >= 0 and r*r == sum Re(x[i])^2+Im(x[i])^2 over addressed elements (exact reals).
+func VerifC01_Scnrm2() {
+	n := verifChoose("n", 0, verifParam("znrm2n", 1))
+	incX := verifC01posinc("incX")
+	slack := verifChoose("slack", 0, 1)
+	x := verifComplex64s("x", verifC01vlen(n, incX, slack))
+	x0 := verifC01zcloneC(x)
+	got := Implementation{}.Scnrm2(n, x, incX)
+	verifC01zsameC(x, x0, "Scnrm2: x unchanged")
+	var ss float32
+	for i := 0; i < n; i++ {
+		v := x0[i*incX]
+		ss += real(v)*real(v) + imag(v)*imag(v)
+	}
+	verifAssert(got >= 0, "Scnrm2: result non-negative")
+	verifC01eqF32(got*got, ss, "Scnrm2: r*r = sum |x[i]|^2 over addressed elements")
+	verifReach("end")
+}
+
+// VerifC01_CL1NegInc: documented: Scasum and Scnrm2 return 0, Icamax returns -1, Zscal and Csscal
+// have no effect when incX is negative; x is never written.
+func VerifC01_CL1NegInc() {
+	n := verifChoose("n", 0, 3)
+	incX := -verifChoose("negIncX", 1, 2)
+	slack := verifChoose("slack", 0, 1)
+	x := verifComplex64s("x", verifC01vlen(n, incX, slack))
+	alpha := complex(verifFloat32("alpha.re"), verifFloat32("alpha.im"))
+	x0 := verifC01zcloneC(x)
+	switch verifChoose("routine", 0, 4) {
+	case 0:
+		verifC01eqF32(Implementation{}.Scasum(n, x, incX), 0, "Scasum: 0 for negative increment")
+	case 1:
+		verifC01eqF32(Implementation{}.Scnrm2(n, x, incX), 0, "Scnrm2: 0 for negative increment")
+	case 2:
+		verifAssert(Implementation{}.Icamax(n, x, incX) == -1, "Icamax: -1 for negative increment")
+	case 3:
+		Implementation{}.Cscal(n, alpha, x, incX)
+	default:
+		Implementation{}.Csscal(n, real(alpha), x, incX)
+	}
+	verifC01zsameC(x, x0, "negative increment: x untouched")
+	verifReach("end")
+}
+
+// VerifC01_Ccopy: y[i] = x[i] bit for bit on addressed elements; x and the rest of y unchanged.
+func VerifC01_Ccopy() {
+	n := verifChoose("n", 0, verifParam("l1n", 4))
+	incX := verifC01inc("incX")
+	incY := verifC01inc("incY")
+	slack := verifChoose("slack", 0, 1)
+	x := verifComplex64s("x", verifC01vlen(n, incX, slack))
+	y := verifComplex64s("y", verifC01vlen(n, incY, slack))
+	x0, y0 := verifC01zcloneC(x), verifC01zcloneC(y)
+	Implementation{}.Ccopy(n, x, incX, y, incY)
+	verifC01zsameC(x, x0, "Ccopy: x unchanged")
+	want := verifC01zcloneC(y0)
+	for i := 0; i < n; i++ {
+		want[verifVecIdx(n, incY, i)] = x0[verifVecIdx(n, incX, i)]
+	}
+	verifC01zsameC(y, want, "Ccopy: y[i] = x[i] bit for bit on addressed elements, rest untouched")
+	verifReach("end")
+}
+
+// VerifC01_Cswap: x[i], y[i] exchanged on addressed elements; everything else unchanged.
+func VerifC01_Cswap() {
+	n := verifChoose("n", 0, verifParam("l1n", 4))
+	incX := verifC01inc("incX")
+	incY := verifC01inc("incY")
+	slack := verifChoose("slack", 0, 1)
+	x := verifComplex64s("x", verifC01vlen(n, incX, slack))
+	y := verifComplex64s("y", verifC01vlen(n, incY, slack))
+	x0, y0 := verifC01zcloneC(x), verifC01zcloneC(y)
+	Implementation{}.Cswap(n, x, incX, y, incY)
+	wx, wy := verifC01zcloneC(x0), verifC01zcloneC(y0)
+	for i := 0; i < n; i++ {
+		ix, iy := verifVecIdx(n, incX, i), verifVecIdx(n, incY, i)
+		wx[ix], wy[iy] = y0[iy], x0[ix]
+	}
+	verifC01zsameC(x, wx, "Cswap: x gets y bit for bit on addressed elements, rest untouched")
+	verifC01zsameC(y, wy, "Cswap: y gets x bit for bit on addressed elements, rest untouched")
+	verifReach("end")
+}
